@@ -51,6 +51,35 @@
 #define LL_PTR_GT(a, b) LL_PTR_CMP(a, b, >)
 #define LL_PTR_GE(a, b) LL_PTR_CMP(a, b, >=)
 
+/* copies and (re-)allocations of symbolic length: cbmc's models of symbolic-size malloc/memmove/realloc run the solver out of memory.
+   -DLL_MEM_CASES=a,b,c lists every length the harness expects (constant or not); each becomes a constant-size operation.  A length
+   outside the list is reported like an unwinding assertion (the query is then inconclusive, never silently cut). */
+#define LL_BEYOND(what) do { __CPROVER_assert(0, "unwinding assertion: " what " length outside the LL_MEM_CASES list of the harness"); __CPROVER_assume(0); } while (0)
+#if defined(__CPROVER__) && defined(LL_MEM_CASES)
+static const size_t ll_cases[] = {LL_MEM_CASES};
+#define LL_NCASES (sizeof ll_cases / sizeof ll_cases[0])
+static void ll_memmove_sym(void *d, const void *s, size_t n) {
+  for (size_t i = 0; i < LL_NCASES; ++i) if (n == ll_cases[i]) { memmove(d, s, ll_cases[i]); return; }
+  LL_BEYOND("copy");
+}
+static void *ll_realloc_split(void *p, size_t n) {
+  for (size_t i = 0; i < LL_NCASES; ++i) if (n == ll_cases[i]) return realloc(p, ll_cases[i]);
+  LL_BEYOND("realloc"); return (void *)0;
+}
+static void *ll_malloc_split(size_t n) {
+  for (size_t i = 0; i < LL_NCASES; ++i) if (n == ll_cases[i]) return malloc(ll_cases[i]);
+  LL_BEYOND("malloc"); return (void *)0;
+}
+static void *ll_calloc_split(size_t c, size_t s) {
+  for (size_t i = 0; i < LL_NCASES; ++i) if (c * s == ll_cases[i]) return calloc(1, ll_cases[i]);
+  LL_BEYOND("calloc"); return (void *)0;
+}
+#define LL_memmove_sym ll_memmove_sym
+#define LL_malloc ll_malloc_split
+#define LL_calloc ll_calloc_split
+#define LL_realloc ll_realloc_split
+#else
+#define LL_memmove_sym memmove
 #define LL_malloc malloc
 #define LL_calloc calloc
 #if defined(__CPROVER__) && defined(LL_REALLOC_UNREACHABLE)
@@ -59,6 +88,7 @@ static void *ll_realloc_unreachable(void *p, size_t n) { (void)p; (void)n; __CPR
 #define LL_realloc ll_realloc_unreachable
 #else
 #define LL_realloc realloc
+#endif
 #endif
 #define LL_free free
 #define LL_memcpy memcpy
